@@ -265,11 +265,12 @@ def observe(fmt, data, sizes, cont, fin):
     def rec(tag):
         recs.append('%s;%s;%d' % (tag, region_rec(insp), sum(insp.context_info.values())))
     chunks = insp_obs.split_sizes(data, sizes)
+    feeder = insp_obs.Feeder(insp_obs.container_kind(bytes(data), list(sizes)))   # chunk container varies per case
     for k, chunk in enumerate(chunks):
         if k == fin:
             insp.finish(); rec('F')
         try:
-            insp.eat_chunk(chunk); e = '-'
+            insp_obs.eat(insp, chunk, feeder); e = '-'
         except Exception as ex:
             e = type(ex).__name__
         rec(e)
